@@ -14,7 +14,11 @@ import (
 
 type VScenario struct {
 	Name string
-	Hist []VEntry
+	// CutOnly: a state that only the serialization check (C03) and the determinism check (C01) start from.  It is
+	// reachable only with the services password and by using the protocol in a way no services package does; the
+	// behavioural monitors (recipients, privileges, invariants) are not specified for it.
+	CutOnly bool
+	Hist    []VEntry
 }
 
 const vSrvName = "services.robustirc.net"
@@ -252,6 +256,7 @@ func VerifScenarios() []VScenario {
 		b.line(a, "JOIN #c")
 		b.lines(a, "PASS :services=svcpw", "SERVER "+vSrvName+" 1 :Services for IRC Networks")
 	})
+	out[len(out)-1].CutOnly = true
 	mk("glined", func(b *vbuilder) { // address of former session b banned by an operator
 		b.config(vCfgBase)
 		a := b.user("a")
